@@ -80,7 +80,7 @@ CHECKS.update({
         text="RaftHost.tla models the ready loop of storage/raft/group.go over an abstract etcd-style library, with durable variables, a crash at every boundary of the cycle, restart, message loss, and the switches RestartMode / SendPolicy. TLC checks NoBad (Attested, ApplySafety, apply-only-durable), ElectionSafety and term >= durable term exhaustively for 2 replicas (3 replicas with symmetry in the thorough tier; counterexamples for RestartMode=start and SendPolicy=allFirst). RaftConf.tla adds what RaftHost leaves out - groups whose membership changes: the host's raftConfState against the log, local snapshots, received snapshots, restart (TLC: the ConfState of every stored snapshot is the membership at its index; counterexample when installing a received snapshot does not update it). On the real code dozens (thorough: hundreds) of scenarios - every boundary x role x cycle number, 1/3/5 replicas, drop/duplicate/delay, partitions, local snapshots and lost snapshot messages to a follower behind the compacted log, a leader forced to step down (by a returning follower's vote request, by the new leader's delayed first append) and killed inside the very cycle in which it stepped down, a crashed minority of two, nodes joining the group while a follower is away that then catches up by snapshot, snapshots locally and restarts - run on real RaftGroups with the verif hooks recording every boundary; RaftHostTrace rebuilds each node's durable state from the 'saved' events and checks Rebootstrap, ResumeOlder, Unattested, ApplyMismatch, ApplyOrder, ApplyNotDurable, Panic, NoConverge and SnapshotConfStale on every run.",
         note=RAFT_NOTE, technique="TLA+ model checking (TLC) + crash/fault scenarios over the spec's crash points on real replicas + TLC trace validation of hook-recorded runs", ref="5/C05"),
     "C03": dict(
-        text="The same RaftHost model and scenarios, with real Datasets on top of the replicated partitions: the client's submits and acknowledgements and every replica's final contents are part of the trace; RaftHostTrace requires every acknowledged write to be in the applied log (AckedLost), every applied change to have been submitted (NeverSubmitted), and every live replica's recovered contents to equal the sequential map applied to the applied log (ContentsVsLog), for a crash at every boundary of the ready cycle (before/after wal.Save, after each applied entry, around local snapshots) followed by restart and replay.",
+        text="The same RaftHost model and scenarios, with real Datasets on top of the replicated partitions: the client's submits and acknowledgements and every replica's final contents are part of the trace; RaftHostTrace requires every acknowledged write to be in the applied log (AckedLost), every applied change to have been submitted (NeverSubmitted), and every live replica's recovered contents to equal the sequential map applied to the applied log (ContentsVsLog), for a crash at every boundary of the ready cycle (before/after wal.Save, after each applied entry, around local snapshots) followed by restart and replay. On three real server processes acknowledged inserts / updates / removes through every node are followed by kill -9 of all nodes and restart on the same directories, then of one node, and what Search returns afterwards through every node is checked against the acknowledgements (ClusterViewTrace: AckedLostOnRestart, GhostAfterRestart).",
         note=RAFT_NOTE, technique="TLA+ model checking (TLC) + crash-point sweep on real replicated Datasets + TLC trace validation", ref="5/C03"),
 })
 
